@@ -124,6 +124,11 @@ impl StateSpace for SO2StateSpace {
     /// Modifies the state by clamping each of its values to the space's bounds.
     fn enforce_bounds(&self, state: &mut Self::StateType) {
         *state = state.normalise();
+        // The configuration PI is normalised to -PI; inside an interval that reaches PI but not
+        // -PI its representative is PI.
+        if state.value == -PI && self.bounds.0 > -PI && self.bounds.1 >= PI {
+            state.value = PI;
+        }
 
         if self.satisfies_bounds(state) {
             return;
@@ -144,7 +149,9 @@ impl StateSpace for SO2StateSpace {
     fn satisfies_bounds(&self, state: &Self::StateType) -> bool {
         let val = state.clone().normalise().value;
         let (lower, upper) = self.bounds;
-        val >= lower && val <= upper
+        // `normalise` maps the angle PI to its equivalent -PI: an interval that reaches PI
+        // contains that configuration even when its lower end is above -PI.
+        (val >= lower && val <= upper) || (val == -PI && upper >= PI)
     }
 
     /// Generates a random angle from within the defined bounds.
